@@ -40,6 +40,8 @@ class _KeyBase:
         self.n = n
         self.depth = depth
         self.parent = parent
+        # parent fingerprint carried by a parsed extended key string (the parent key itself is unknown)
+        self.parsed_parent_fingerprint = None
 
     def _hmac_sha512(self, msg):
         """ Use SHA-512 to provide an HMAC, returned as a pair of 32-byte objects. """
@@ -75,7 +77,9 @@ class _KeyBase:
 
     def parent_fingerprint(self):
         """ Return the parent key's fingerprint as 4 bytes. """
-        return self.parent.fingerprint() if self.parent else bytes((0,)*4)
+        if self.parent:
+            return self.parent.fingerprint()
+        return self.parsed_parent_fingerprint or bytes((0,)*4)
 
     def extended_key_string(self):
         """ Return an extended key as a base58 string. """
@@ -229,10 +233,12 @@ class PrivateKey(_KeyBase):
         """ Return the corresponding extended public key. """
         verifying_key = self.signing_key.public_key
         parent_pubkey = self.parent.public_key if self.parent else None
-        return PublicKey(
+        public_key = PublicKey(
             self.ledger, verifying_key, self.chain_code,
             self.n, self.depth, parent_pubkey
         )
+        public_key.parsed_parent_fingerprint = self.parsed_parent_fingerprint
+        return public_key
 
     def ec_point(self):
         return self.public_key.ec_point()
@@ -328,6 +334,7 @@ def _from_extended_key(ledger, ekey):
     else:
         raise ValueError('version bytes unrecognised')
 
+    key.parsed_parent_fingerprint = bytes(ekey[5:9])
     return key
 
 
